@@ -12,7 +12,12 @@
 //!   {"ev":"create","h":0,"type":..,"role":..}
 //!   {"ev":"obs","h":h,"key":..,"cls":"f"|"d"|"b","st":"ok"|"guard"|"panic","d":[a,b]}
 //!        cls f = float bit patterns, d = discrete, b = behaviour that needs a part that cannot be
-//!        serialised (a tokenizer function); st guard = the documented TokenizerNotSet refusal
+//!        serialised (a tokenizer function), l = memory layout of a matrix accessor (reported, never
+//!        required to agree: the statement is about values and behaviour, not layout);
+//!        st guard = the documented TokenizerNotSet refusal
+//! `inp.wide = 1` (types with matrix parameters): the value is fitted on 8..12 features instead of 2..3, so
+//! that unrolled kernels and layout-dependent code paths are exercised; predictions / transforms are observed
+//! through every public calling form (owned array, view, column-major, strided view, dataset forms).
 //!   {"ev":"rt","h":from,"to":to,"fmt":..,"ser":"ok"|"err"|"unimpl","de":"ok"|"err"|"unimpl"|"na",
 //!        "lossless":bool,"len":bytes}
 //!        unimpl = the concrete type does not implement Serialize / Deserialize at all although it
@@ -210,6 +215,10 @@ impl Ob {
     fn d(&mut self, key: &str, d: Dg) {
         self.push(key, "d", "ok", d.done());
     }
+    /// memory layout of a matrix accessor: reported, not part of the property
+    fn l(&mut self, key: &str, standard: bool) {
+        self.push(key, "l", "ok", Dg::new().b(standard).done());
+    }
     /// one digest over a whole observation list (used for re-fit results)
     fn fold(&self) -> Dg {
         let mut g = Dg::new();
@@ -337,6 +346,7 @@ struct Cfg {
     ft: String,
     var: usize,
     data: u64,
+    wide: bool,
     fmts: Vec<String>,
 }
 
@@ -469,13 +479,39 @@ impl Lcg {
         lo + (hi - lo) * self.unit()
     }
 }
+thread_local! {
+    /// number of features of a "wide" case (0 = not wide): every 2- or 3-feature data set / query set of the
+    /// case is generated with this many features (and correspondingly more samples) instead
+    static WIDE: std::cell::Cell<usize> = std::cell::Cell::new(0);
+}
+fn widen(nf: usize) -> usize {
+    let w = WIDE.with(|w| w.get());
+    if w > 0 && (nf == 2 || nf == 3) {
+        w
+    } else {
+        nf
+    }
+}
 fn cloud<F: Fl>(seed: u64, n: usize, nf: usize, lo: f64, hi: f64) -> Array2<F> {
     let mut g = Lcg::new(seed);
+    let (n, nf) = if widen(nf) != nf { (n + 2 * widen(nf), widen(nf)) } else { (n, nf) };
     Array2::from_shape_fn((n, nf), |_| F::of(g.range(lo, hi)))
+}
+/// the same values in column-major memory order
+fn col_major<F: Fl>(q: &Array2<F>) -> Array2<F> {
+    use ndarray::ShapeBuilder;
+    let mut a = Array2::zeros(q.raw_dim().f());
+    a.assign(q);
+    a
+}
+/// a buffer whose every second row and column holds q (the rest is junk): `spaced(q).slice(s![..;2, ..;2])` == q
+fn spaced<F: Fl>(q: &Array2<F>) -> Array2<F> {
+    Array2::from_shape_fn((2 * q.nrows(), 2 * q.ncols()), |(i, j)| if i % 2 == 0 && j % 2 == 0 { q[[i / 2, j / 2]] } else { F::of(777.0) })
 }
 /// k blobs of m points around separated centres; labels 0..k
 fn blobs<F: Fl>(seed: u64, k: usize, m: usize, nf: usize) -> (Array2<F>, Array1<usize>) {
     let mut g = Lcg::new(seed);
+    let (m, nf) = if widen(nf) != nf { (m + widen(nf), widen(nf)) } else { (m, nf) };
     let n = k * m;
     let mut y = Array1::zeros(n);
     let x = Array2::from_shape_fn((n, nf), |(i, j)| {
@@ -502,6 +538,13 @@ fn err_or<T, E: std::fmt::Display>(r: Result<T, E>, f: impl FnOnce(T) -> Dg) -> 
         Err(e) => Dg::new().s("error").s(&e.to_string()),
     }
 }
+/// a re-fit: its outcome (model, error, or a panic inside the estimator) is the observation
+fn fit_or<T, E: std::fmt::Display>(fit: impl FnOnce() -> Result<T, E>, f: impl FnOnce(T) -> Dg) -> Dg {
+    match guarded(fit) {
+        Ok(r) => err_or(r, f),
+        Err(msg) => Dg::new().s("panic in fit").s(&msg),
+    }
+}
 fn verdict<P: ParamGuard>(p: &P) -> Dg {
     match p.check_ref() {
         Ok(_) => Dg::new().s("valid"),
@@ -509,6 +552,42 @@ fn verdict<P: ParamGuard>(p: &P) -> Dg {
     }
 }
 
+
+/// every public calling form of `predict` for a model whose PredictInplace is generic over the record storage:
+/// reference / view / column-major / strided view / dataset reference / dataset of a view / owned array / owned dataset
+macro_rules! pforms {
+    ($o:expr, $m:expr, $q:expr, $dg:expr) => {{
+        let q = &$q;
+        let m = $m;
+        let dg = $dg;
+        let qf = col_major(q);
+        let big = spaced(q);
+        $o.f("predict", dg(&m.predict(q)));
+        $o.f("predict.view", dg(&m.predict(&q.view())));
+        $o.f("predict.colmajor", dg(&m.predict(&qf)));
+        $o.f("predict.strided", dg(&m.predict(&big.slice(ndarray::s![..;2, ..;2]))));
+        $o.f("predict.dataset", dg(&m.predict(&DatasetBase::from(q.clone()))));
+        $o.f("predict.datasetview", dg(&m.predict(&DatasetBase::from(qf.view()))));
+        $o.f("predict.owned", dg(m.predict(q.clone()).targets()));
+        $o.f("predict.datasetowned", dg(m.predict(DatasetBase::from(qf.clone())).targets()));
+    }};
+}
+/// every public calling form of `transform` of a fitted scaler / whitener: owned array (row- and column-major),
+/// dataset of an owned array (both orders), dataset of a view, dataset of a strided view
+macro_rules! tforms {
+    ($o:expr, $m:expr, $q:expr) => {{
+        let q = &$q;
+        let m = $m;
+        let qf = col_major(q);
+        let big = spaced(q);
+        $o.f("transform", a2(&m.transform(q.clone())));
+        $o.f("transform.colmajor", a2(&m.transform(qf.clone())));
+        $o.f("transform.dataset", a2(m.transform(DatasetBase::from(q.clone())).records()));
+        $o.f("transform.datasetcolmajor", a2(m.transform(DatasetBase::from(qf.clone())).records()));
+        $o.f("transform.datasetview", a2(m.transform(DatasetBase::from(q.view())).records()));
+        $o.f("transform.datasetstrided", a2(m.transform(DatasetBase::from(big.slice(ndarray::s![..;2, ..;2]))).records()));
+    }};
+}
 
 /// observation functions that can only be written for concrete float types (the crates' own
 /// `Float` traits are private)
@@ -685,8 +764,11 @@ mod clu {
         o.f("centroids", a2(m.centroids()));
         o.f("cluster_count", a1(m.cluster_count()));
         o.f("inertia", Dg::new().f(m.inertia()));
-        o.f("predict", Dg::new().us(m.predict(&q).iter()));
+        o.l("layout.centroids", m.centroids().is_standard_layout());
+        pforms!(o, m, q, |y: &Array1<usize>| Dg::new().us(y.iter()));
         o.f("transform", a1(&m.transform(&q)));
+        o.f("transform.view", a1(&m.transform(&q.view())));
+        o.f("transform.colmajor", a1(&m.transform(&col_major(&q))));
         o.f("predict1", Dg::new().u(m.predict(&q.row(1)) as u64));
         o
     }
@@ -698,8 +780,12 @@ mod clu {
         o.f("covariances", Dg::new().shape(m.covariances().shape()).fs(m.covariances().iter()));
         o.f("precisions", Dg::new().shape(m.precisions().shape()).fs(m.precisions().iter()));
         o.f("centroids", a2(m.centroids()));
-        o.f("predict", Dg::new().us(m.predict(&q).iter()));
+        o.l("layout.means", m.means().is_standard_layout());
+        o.l("layout.covariances", m.covariances().is_standard_layout() && m.precisions().is_standard_layout());
+        pforms!(o, m, q, |y: &Array1<usize>| Dg::new().us(y.iter()));
         o.f("predict_proba", a2(&m.predict_proba(&q)));
+        o.f("predict_proba.colmajor", a2(&m.predict_proba(&col_major(&q))));
+        o.f("predict_proba.view", a2(&m.predict_proba(&spaced(&q).slice(ndarray::s![..;2, ..;2]))));
         o
     }
     pub fn obs_optics<F: Fl>(a: &OpticsAnalysis<F>) -> Ob {
@@ -787,7 +873,7 @@ mod clu {
                                 o.f("debug", dbg(p));
                                 o.f("tree", tree(p));
                                 o.d("validate", verdict(p));
-                                o.f("refit", err_or(p.fit(&ds), |m| obs_kmeans(&m).fold()));
+                                o.f("refit", fit_or(|| p.fit(&ds), |m| obs_kmeans(&m).fold()));
                                 o
                             }, eq)
                         } else {
@@ -798,7 +884,7 @@ mod clu {
                                 o.f("debug", dbg(p));
                                 o.f("tree", tree(p));
                                 o.d("validate", Dg::new().s("valid"));
-                                o.f("refit", err_or(p.fit(&ds), |m| obs_kmeans(&m).fold()));
+                                o.f("refit", fit_or(|| p.fit(&ds), |m| obs_kmeans(&m).fold()));
                                 o
                             }, eq)
                         }
@@ -853,7 +939,7 @@ mod clu {
                                 o.f("debug", dbg(p));
                                 o.f("tree", tree(p));
                                 o.d("validate", verdict(p));
-                                o.f("refit", err_or(p.fit(&ds), |m| obs_gmm(&m).fold()));
+                                o.f("refit", fit_or(|| p.fit(&ds), |m| obs_gmm(&m).fold()));
                                 o
                             }, eq)
                         } else {
@@ -864,7 +950,7 @@ mod clu {
                                 o.f("debug", dbg(p));
                                 o.f("accessors", Dg::new().u(p.n_clusters() as u64).s(&format!("{:?}{:?}", p.covariance_type(), p.init_method())).f(p.tolerance()).f(p.reg_covariance()).u(p.n_runs()).u(p.max_n_iterations()));
                                 o.d("validate", Dg::new().s("valid"));
-                                o.f("refit", err_or(p.fit(&ds), |m| obs_gmm(&m).fold()));
+                                o.f("refit", fit_or(|| p.fit(&ds), |m| obs_gmm(&m).fold()));
                                 o
                             }, eq)
                         }
@@ -1027,7 +1113,7 @@ mod lin {
         let mut o = Ob::new();
         o.f("params", a1(m.params()));
         o.f("intercept", Dg::new().f(m.intercept()));
-        o.f("predict", a1(&m.predict(&q)));
+        pforms!(o, m, q, |y: &Array1<F>| a1(y));
         o
     }
     impl_obs2!(FittedIsotonicRegression<F>, |m| {
@@ -1035,7 +1121,7 @@ mod lin {
         let mut o = Ob::new();
         o.f("debug", dbg(m));
         o.f("tree", tree(m));
-        o.f("predict", a1(&m.predict(&q)));
+        pforms!(o, m, q, |y: &Array1<F>| a1(y));
         o
     });
     impl_obs2!(TweedieRegressor<F>, |m| {
@@ -1044,7 +1130,7 @@ mod lin {
         o.f("coef", a1(&m.coef));
         o.f("intercept", Dg::new().f(m.intercept));
         o.f("debug", dbg(m));
-        o.f("predict", a1(&m.predict(&q)));
+        pforms!(o, m, q, |y: &Array1<F>| a1(y));
         o
     });
     pub fn t(ev: &mut Vec<Value>, cfg: &Cfg) -> bool {
@@ -1080,7 +1166,7 @@ mod lin {
                             o.d("debug", dbg(p));
                             o.d("tree", tree(p));
                             o.d("validate", Dg::new().s("valid"));
-                            o.f("refit", err_or(p.fit(&ds), |m| obs_ols(&m).fold()));
+                            o.f("refit", fit_or(|| p.fit(&ds), |m| obs_ols(&m).fold()));
                             o
                         }, eq)
                     }};
@@ -1121,6 +1207,8 @@ mod lin {
                 macro_rules! go {
                     ($F:ty) => {{
                         let x: Array2<$F> = cloud(600 + cfg.data, 14, 3, -1.0, 2.5);
+                        // many features: keep the linear predictor (and its exponential) in a moderate range
+                        let x = if cfg.wide { x.mapv(|v| v * <$F>::of(0.25)) } else { x };
                         let mut g = Lcg::new(700 + cfg.data);
                         let y: Array1<$F> = x.outer_iter().map(|r| <$F>::of((0.3 * r[0].to64() - 0.2 * r[1].to64() + 0.5).exp() + 0.25 * (g.unit() + 0.1))).collect();
                         let ds = DatasetBase::new(x, y);
@@ -1142,7 +1230,7 @@ mod lin {
                                 o.f("debug", dbg(p));
                                 o.f("accessors", Dg::new().f(p.alpha()).b(p.fit_intercept()).f(p.power()).s(&format!("{:?}", p.link())).u(p.max_iter() as u64).f(p.tol()));
                                 o.d("validate", Dg::new().s("valid"));
-                                o.f("refit", err_or(p.fit(&ds), |m| m.obs().fold()));
+                                o.f("refit", fit_or(|| p.fit(&ds), |m| m.obs().fold()));
                                 o
                             }, eq)
                         }
@@ -1171,7 +1259,7 @@ mod enet {
         o.f("z_score", err_or(m.z_score(), |z| a1(&z)));
         o.f("confidence", err_or(m.confidence_95th(), |c| { let mut g = Dg::new(); for (a, b) in c.iter() { g = g.f(*a).f(*b); } g }));
         o.f("tree", tree(m));
-        o.f("predict", a1(&m.predict(&q)));
+        pforms!(o, m, q, |y: &Array1<F>| a1(y));
         o
     }
     fn obs_mt<F: Fl>(m: &MultiTaskElasticNet<F>) -> Ob {
@@ -1184,7 +1272,8 @@ mod enet {
         // z_score()/confidence_95th() of the multi-task model panic in the pinned tree whenever
         // n_tasks != n_features (broadcast of the variance vector): not a persistence question, not called
         o.f("tree", tree(m));
-        o.f("predict", a2(&m.predict(&q)));
+        o.l("layout.hyperplane", m.hyperplane().is_standard_layout());
+        pforms!(o, m, q, |y: &Array2<F>| a2(y));
         o
     }
     pub fn t(ev: &mut Vec<Value>, cfg: &Cfg) -> bool {
@@ -1234,7 +1323,7 @@ mod enet {
                                 o.f("debug", dbg(p));
                                 o.f("accessors", Dg::new().f(p.penalty()).f(p.l1_ratio()).b(p.with_intercept()).u(p.max_iterations() as u64).f(p.tolerance()));
                                 o.d("validate", Dg::new().s("valid"));
-                                o.f("refit", err_or(p.fit(&ds), |m| obs_en(&m).fold()));
+                                o.f("refit", fit_or(|| p.fit(&ds), |m| obs_en(&m).fold()));
                                 o
                             }, eq)
                         }
@@ -1265,7 +1354,7 @@ mod enet {
                                 o.f("debug", dbg(p));
                                 o.f("accessors", Dg::new().f(p.penalty()).f(p.l1_ratio()).b(p.with_intercept()).u(p.max_iterations() as u64).f(p.tolerance()));
                                 o.d("validate", Dg::new().s("valid"));
-                                o.f("refit", err_or(p.fit(&ds), |m| obs_mt(&m).fold()));
+                                o.f("refit", fit_or(|| p.fit(&ds), |m| obs_mt(&m).fold()));
                                 o
                             }, eq)
                         }
@@ -1293,8 +1382,10 @@ mod logi {
                 o.f("intercept", Dg::new().f(m.intercept()));
                 o.f("labels", dbg(m.labels()));
                 o.f("debug", dbg(m));
-                o.f("predict", dbg(&m.predict(&q)));
+                pforms!(o, m, q, |y: &Array1<$C>| dbg(y));
                 o.f("probabilities", a1(&m.predict_probabilities(&q)));
+                o.f("probabilities.colmajor", a1(&m.predict_probabilities(&col_major(&q))));
+                o.f("probabilities.view", a1(&m.predict_probabilities(&spaced(&q).slice(ndarray::s![..;2, ..;2]))));
                 o
             });
         };
@@ -1307,8 +1398,11 @@ mod logi {
         o.f("params", a2(m.params()));
         o.f("intercept", a1(m.intercept()));
         o.d("classes", dbg(&m.classes()));
-        o.f("predict", dbg(&m.predict(&q)));
+        o.l("layout.params", m.params().is_standard_layout());
+        pforms!(o, m, q, |y: &Array1<usize>| dbg(y));
         o.f("probabilities", a2(&m.predict_probabilities(&q)));
+        o.f("probabilities.colmajor", a2(&m.predict_probabilities(&col_major(&q))));
+        o.f("probabilities.view", a2(&m.predict_probabilities(&spaced(&q).slice(ndarray::s![..;2, ..;2]))));
         o
     });
     pub fn t(ev: &mut Vec<Value>, cfg: &Cfg) -> bool {
@@ -1320,12 +1414,12 @@ mod logi {
                         let ys = y.mapv(|l| if l == 1 { "pos".to_string() } else { "neg".to_string() });
                         let y = y.mapv(|l| if l == 1 { 7usize } else { 3usize });
                         let ds = DatasetBase::new(x.clone(), y);
-                        let dss = DatasetBase::new(x, ys);
+                        let dss = DatasetBase::new(x.clone(), ys);
                         let p = LogisticRegression::<$F>::default();
                         let p = match cfg.var {
                             0 => p.alpha(<$F>::of(0.5)).max_iterations(200),
                             1 => p.alpha(<$F>::of(0.1)).with_intercept(false).gradient_tolerance(<$F>::of(1e-6)).max_iterations(150),
-                            2 => p.alpha(<$F>::of(1.5)).initial_params(Array1::from(vec![<$F>::of(0.1), <$F>::of(-0.2), <$F>::of(0.3)])),
+                            2 => p.alpha(<$F>::of(1.5)).initial_params(Array1::from_shape_fn(x.ncols() + 1, |i| <$F>::of(0.1 * (i as f64 + 1.0) * if i % 2 == 1 { -1.0 } else { 1.0 }))),
                             3 => p.alpha(<$F>::of(-1.0)),
                             4 => p.gradient_tolerance(<$F>::of(0.0)),
                             _ => bad_var(cfg),
@@ -1338,7 +1432,7 @@ mod logi {
                                     o.f("debug", dbg(p));
                                     o.f("tree", tree(p));
                                     o.d("validate", verdict(p));
-                                    o.f("refit", err_or(p.fit(&ds), |m| m.obs().fold()));
+                                    o.f("refit", fit_or(|| p.fit(&ds), |m| m.obs().fold()));
                                     o
                                 }, eq)
                             }
@@ -1350,7 +1444,7 @@ mod logi {
                                     o.f("debug", dbg(p));
                                     o.f("tree", tree(p));
                                     o.d("validate", Dg::new().s("valid"));
-                                    o.f("refit", err_or(p.fit(&ds), |m| m.obs().fold()));
+                                    o.f("refit", fit_or(|| p.fit(&ds), |m| m.obs().fold()));
                                     o
                                 }, eq)
                             }
@@ -1395,11 +1489,12 @@ mod logi {
                 macro_rules! go {
                     ($F:ty) => {{
                         let (x, y) = blobs::<$F>(1200 + cfg.data, 3, 6, 2);
+                        let nfeat = x.ncols();
                         let ds = DatasetBase::new(x, y.mapv(|l| 10 + l));
                         let p = MultiLogisticRegression::<$F>::default();
                         let p = match cfg.var {
                             0 => p.alpha(<$F>::of(0.5)).max_iterations(200),
-                            1 => p.alpha(<$F>::of(0.2)).with_intercept(false).initial_params(Array2::from_shape_fn((2, 3), |(i, j)| <$F>::of(0.1 * (i as f64) - 0.05 * (j as f64)))),
+                            1 => p.alpha(<$F>::of(0.2)).with_intercept(false).initial_params(Array2::from_shape_fn((nfeat, 3), |(i, j)| <$F>::of(0.1 * (i as f64) - 0.05 * (j as f64)))),
                             2 => p.alpha(<$F>::of(-0.5)),
                             _ => bad_var(cfg),
                         };
@@ -1411,7 +1506,7 @@ mod logi {
                                     o.f("debug", dbg(p));
                                     o.f("tree", tree(p));
                                     o.d("validate", verdict(p));
-                                    o.f("refit", err_or(p.fit(&ds), |m| m.obs().fold()));
+                                    o.f("refit", fit_or(|| p.fit(&ds), |m| m.obs().fold()));
                                     o
                                 }, eq)
                             }
@@ -1423,7 +1518,7 @@ mod logi {
                                     o.f("debug", dbg(p));
                                     o.f("tree", tree(p));
                                     o.d("validate", Dg::new().s("valid"));
-                                    o.f("refit", err_or(p.fit(&ds), |m| m.obs().fold()));
+                                    o.f("refit", fit_or(|| p.fit(&ds), |m| m.obs().fold()));
                                     o
                                 }, eq)
                             }
@@ -1468,7 +1563,7 @@ mod svm {
         let q: Array2<F> = queries(2);
         let mut o = Ob::new();
         svm_common(m, &mut o);
-        o.f("predict", dbg(&m.predict(&q)));
+        pforms!(o, m, q, |y: &Array1<bool>| dbg(y));
         o.f("predict1", Dg::new().b(m.predict(q.row(2))));
         o
     });
@@ -1476,8 +1571,7 @@ mod svm {
         let q: Array2<F> = queries(2);
         let mut o = Ob::new();
         svm_common(m, &mut o);
-        let p: Array1<Pr> = m.predict(&q);
-        o.f("predict", Dg::new().fs(p.iter().map(|x| **x).collect::<Vec<f32>>().iter()));
+        pforms!(o, m, q, |y: &Array1<Pr>| Dg::new().fs(y.iter().map(|x| **x).collect::<Vec<f32>>().iter()));
         o
     });
     macro_rules! svr_obs {
@@ -1488,7 +1582,7 @@ mod svm {
                     let q: Array2<$F> = queries(2);
                     let mut o = Ob::new();
                     svm_common(m, &mut o);
-                    o.f("predict", a1(&m.predict(&q)));
+                    pforms!(o, m, q, |y: &Array1<$F>| a1(y));
                     o.f("predict1", Dg::new().f(m.predict(q.row(2))));
                     o
                 }
@@ -1499,11 +1593,15 @@ mod svm {
     svr_obs!(f64);
     fn obs_kernel<F: Fl>(k: &Kernel<F>) -> Ob {
         let n = k.size();
-        let rhs: Array2<F> = cloud(31, n, 2, -1.0, 1.0);
+        let rhs: Array2<F> = cloud(31, n, 4, -1.0, 1.0);
         let mut o = Ob::new();
         o.d("size", Dg::new().u(n as u64).b(k.is_linear()).b(k.inner.is_dense_inner()));
         o.f("method", dbg(&k.method));
+        if let linfa_kernel::KernelInner::Dense(a) = &k.inner {
+            o.l("layout.inner", a.is_standard_layout());
+        }
         o.f("dot", a2(&k.dot(&rhs.view())));
+        o.f("dot.colmajor", a2(&k.dot(&col_major(&rhs).view())));
         o.f("sum", a1(&k.sum()));
         o.f("column", Dg::new().fs(k.column(1).iter()).fs(k.column(n - 1).iter()));
         o.f("upper", Dg::new().fs(k.to_upper_triangle().iter()));
@@ -1698,7 +1796,7 @@ mod trees {
         f.sort();
         o.d("shape", Dg::new().us(f.iter()).u(m.max_depth() as u64).u(m.num_leaves() as u64).u(m.iter_nodes().count() as u64));
         o.f("importance", Dg::new().fs(m.mean_impurity_decrease().iter()).fs(m.feature_importance().iter()));
-        o.f("predict", Dg::new().us(m.predict(&q).iter()));
+        pforms!(o, m, q, |y: &Array1<usize>| Dg::new().us(y.iter()));
         if private {
             o.f("debug", dbg(m));
         }
@@ -1746,7 +1844,7 @@ mod trees {
                                     o.f("debug", dbg(p));
                                     o.f("tree", tree(p));
                                     o.d("validate", verdict(p));
-                                    o.f("refit", err_or(p.fit(&ds), |m| refit_tree(&m, &xtrain)));
+                                    o.f("refit", fit_or(|| p.fit(&ds), |m| refit_tree(&m, &xtrain)));
                                     o
                                 }, eq)
                             }
@@ -1758,7 +1856,7 @@ mod trees {
                                     o.f("debug", dbg(p));
                                     o.f("accessors", Dg::new().s(&format!("{:?}{:?}", p.split_quality(), p.max_depth())).f(p.min_weight_split()).f(p.min_weight_leaf()).f(p.min_impurity_decrease()));
                                     o.d("validate", Dg::new().s("valid"));
-                                    o.f("refit", err_or(p.fit(&ds), |m| refit_tree(&m, &xtrain)));
+                                    o.f("refit", fit_or(|| p.fit(&ds), |m| refit_tree(&m, &xtrain)));
                                     o
                                 }, eq)
                             }
@@ -1808,7 +1906,7 @@ mod bayes {
                                 |m: &$M| {
                                     let mut o = Ob::new();
                                     o.f("tree", tree(m));
-                                    o.f("predict", Dg::new().us(m.predict(&q).iter()));
+                                    pforms!(o, m, q, |y: &Array1<usize>| Dg::new().us(y.iter()));
                                     o.f("predict1", Dg::new().us(m.predict(&q.slice(ndarray::s![1..2, ..])).iter()));
                                     o
                                 }
@@ -1860,7 +1958,7 @@ mod bayes {
                                     o.f("debug", dbg(p));
                                     o.f("accessors", Dg::new().f(p.var_smoothing()));
                                     o.d("validate", Dg::new().s("valid"));
-                                    o.f("refit", err_or(p.fit(&ds), |m| model_obs!(GaussianNb<$F, usize>)(&m).fold()));
+                                    o.f("refit", fit_or(|| p.fit(&ds), |m| model_obs!(GaussianNb<$F, usize>)(&m).fold()));
                                     o
                                 }, eq)
                             }
@@ -1878,7 +1976,7 @@ mod bayes {
                                     o.f("debug", dbg(p));
                                     o.f("accessors", Dg::new().f(p.alpha()));
                                     o.d("validate", Dg::new().s("valid"));
-                                    o.f("refit", err_or(p.fit(&ds), |m| model_obs!(MultinomialNb<$F, usize>)(&m).fold()));
+                                    o.f("refit", fit_or(|| p.fit(&ds), |m| model_obs!(MultinomialNb<$F, usize>)(&m).fold()));
                                     o
                                 }, eq)
                             }
@@ -1906,7 +2004,7 @@ mod ftrl {
         o.f("n", a1(m.n()));
         o.f("hyper", Dg::new().f(m.alpha()).f(m.beta()).f(m.l1_ratio()).f(m.l2_ratio()));
         o.f("weights", a1(&m.get_weights()));
-        o.f("predict", Dg::new().fs(m.predict(&q).iter().map(|x| **x).collect::<Vec<f32>>().iter()));
+        pforms!(o, m, q, |y: &Array1<linfa::dataset::Pr>| Dg::new().fs(y.iter().map(|x| **x).collect::<Vec<f32>>().iter()));
         o
     }
     pub fn t(ev: &mut Vec<Value>, cfg: &Cfg) -> bool {
@@ -1946,7 +2044,7 @@ mod ftrl {
                         type P = FtrlParams<$F, Xoshiro256Plus>;
                         type V = <FtrlParams<$F, Xoshiro256Plus> as ParamGuard>::Checked;
                         let refit = |vp: &V| -> Dg {
-                            let mut m = Ftrl::new(vp.clone(), 2);
+                            let mut m = Ftrl::new(vp.clone(), ds.records().ncols());
                             for _ in 0..3 {
                                 m = match vp.fit_with(Some(m), &ds) {
                                     Ok(m) => m,
@@ -1977,7 +2075,7 @@ mod ftrl {
                             }
                             _ => {
                                 let vp: V = p.check().expect("harness: invalid configuration for a fitted model");
-                                let mut m = Ftrl::new(vp.clone(), 2);
+                                let mut m = Ftrl::new(vp.clone(), ds.records().ncols());
                                 for _ in 0..(2 + cfg.var) {
                                     m = vp.fit_with(Some(m), &ds).expect("harness: setup: ftrl fit");
                                 }
@@ -2014,9 +2112,20 @@ mod red {
                 let (a, b) = m.rotations();
                 o.f("rotations", a2(a).fs(b.iter()));
                 o.f("coefficients", a2(m.coefficients()));
-                o.f("predict", a2(&m.predict(&q)));
-                let t = m.transform(DatasetBase::new(q.clone(), q.slice(ndarray::s![.., 0..2]).to_owned()));
+                o.l("layout.weights", m.weights().0.is_standard_layout() && m.weights().1.is_standard_layout());
+                o.l("layout.rotations", m.rotations().0.is_standard_layout() && m.rotations().1.is_standard_layout());
+                o.l("layout.coefficients", m.coefficients().is_standard_layout());
+                pforms!(o, m, q, |y: &Array2<F>| a2(y));
+                let yq = q.slice(ndarray::s![.., 0..2]).to_owned();
+                let t = m.transform(DatasetBase::new(q.clone(), yq.clone()));
                 o.f("transform", a2(t.records()).fs(t.targets().iter()));
+                let t = m.transform(DatasetBase::new(q.view(), yq.view()));
+                o.f("transform.view", a2(t.records()).fs(t.targets().iter()));
+                let t = m.transform(DatasetBase::new(col_major(&q), col_major(&yq)));
+                o.f("transform.colmajor", a2(t.records()).fs(t.targets().iter()));
+                let (bq, by) = (spaced(&q), spaced(&yq));
+                let t = m.transform(DatasetBase::new(bq.slice(ndarray::s![..;2, ..;2]), by.slice(ndarray::s![..;2, ..;2])));
+                o.f("transform.strided", a2(t.records()).fs(t.targets().iter()));
                 o.f("debug", dbg(m));
                 o
             });
@@ -2038,9 +2147,14 @@ mod red {
         o.f("mean", a1(m.mean()));
         o.f("singular_values", a1(m.singular_values()));
         o.f("explained_variance", a1(&m.explained_variance()).fs(m.explained_variance_ratio().iter()));
+        o.l("layout.components", m.components().is_standard_layout());
         let p: Array2<f64> = m.predict(&q);
         o.f("inverse", a2(&m.inverse_transform(p.clone())));
-        o.f("predict", a2(&p));
+        o.f("inverse.colmajor", a2(&m.inverse_transform(col_major(&p))));
+        pforms!(o, m, q, |y: &Array2<f64>| a2(y));
+        o.f("transform.dataset", a2(m.transform(DatasetBase::from(q.clone())).records()));
+        o.f("transform.datasetcolmajor", a2(m.transform(DatasetBase::from(col_major(&q))).records()));
+        o.f("transform.datasetview", a2(m.transform(DatasetBase::from(spaced(&q).slice(ndarray::s![..;2, ..;2]))).records()));
         o
     }
     fn obs_ica<F: Fl>(m: &FastIca<F>) -> Ob {
@@ -2049,6 +2163,9 @@ mod red {
         o.f("debug", dbg(m));
         o.f("tree", tree(m));
         o.f("predict", a2(&m.predict(&q)));
+        o.f("predict.colmajor", a2(&m.predict(&col_major(&q))));
+        o.f("predict.owned", a2(m.predict(q.clone()).targets()));
+        o.f("predict.dataset", a2(&m.predict(&DatasetBase::from(col_major(&q)))));
         o
     }
     pub fn t(ev: &mut Vec<Value>, cfg: &Cfg) -> bool {
@@ -2094,7 +2211,7 @@ mod red {
                             o.d("debug", dbg(p));
                             o.d("tree", tree(p));
                             o.d("validate", Dg::new().s("valid"));
-                            o.f("refit", err_or(p.fit(&ds), |m: PlsSvd<$F>| {
+                            o.f("refit", fit_or(|| p.fit(&ds), |m: PlsSvd<$F>| {
                                 let (a, b) = m.weights();
                                 let t = m.transform(pls_data::<$F>(cfg));
                                 a2(a).fs(b.iter()).fs(t.records().iter()).fs(t.targets().iter())
@@ -2119,7 +2236,7 @@ mod red {
                         o.d("debug", dbg(p));
                         o.d("tree", tree(p));
                         o.d("validate", Dg::new().s("valid"));
-                        o.f("refit", err_or(p.fit(&ds), |m| obs_pca(&m).fold()));
+                        o.f("refit", fit_or(|| p.fit(&ds), |m| obs_pca(&m).fold()));
                         o
                     }, eq)
                 } else {
@@ -2159,7 +2276,7 @@ mod red {
                                 o.f("debug", dbg(p));
                                 o.f("accessors", Dg::new().s(&format!("{:?}{:?}{:?}", p.ncomponents(), p.gfunc(), p.random_state())).u(p.max_iter() as u64).f(p.tol()));
                                 o.d("validate", Dg::new().s("valid"));
-                                o.f("refit", err_or(p.fit(&ds), |m| obs_ica(&m).fold()));
+                                o.f("refit", fit_or(|| p.fit(&ds), |m| obs_ica(&m).fold()));
                                 o
                             }, eq)
                         }
@@ -2187,12 +2304,12 @@ mod prep {
         s.split(|c: char| c == ' ' || c == ',').filter(|w| !w.is_empty()).collect()
     }
     fn texts(cfg: &Cfg) -> Array1<String> {
-        let pool = ["one and two and three", "Three and four, five", "x-ray a b, c the end", "seven and EIGHT the", "maybe ten and eleven a", "ca\u{f1}on one two, b"];
+        let pool = ["one and Two and three", "Three and four, five", "x-ray a b, c the End", "seven and EIGHT the", "Maybe ten and eleven a", "Ca\u{f1}on one two, b"];
         let n = 4 + (cfg.data % 3) as usize;
         (0..n).map(|i| pool[(i + cfg.data as usize) % pool.len()].to_string()).collect()
     }
     fn qtexts() -> Array1<String> {
-        Array1::from(vec!["one b a, three three".to_string(), "the END x-ray".to_string(), "".to_string(), "eleven and one, two".to_string()])
+        Array1::from(vec!["One b a, three Three".to_string(), "the END x-ray".to_string(), "".to_string(), "Eleven and one, TWO ca\u{f1}on".to_string(), "end two and Ten".to_string()])
     }
     /// canonical tree: arrays made only of strings are sorted (hash-set order is not part of the value)
     fn tree_sorted<T: Serialize>(v: &T) -> Dg {
@@ -2279,14 +2396,19 @@ mod prep {
             Err(e) => Err(e),
         }
     }
+    /// words that start with a capital or the literal `Ca`, or have at least four letters
+    const UPPER_RE: &str = r"\b(?:[A-Z]\w*|Ca\w*|\w{4,})\b";
     fn cv_params(cfg: &Cfg) -> CountVectorizerParams {
         let p = CountVectorizer::params();
         match cfg.var {
             0 => p,
             1 => p.tokenizer(Tokenizer::Regex(r"\b[a-z]+\b".to_string())).n_gram_range(1, 2).convert_to_lowercase(false).normalize(false).stopwords(&["and", "the", "zzz"]).max_features(Some(6)),
             2 => p.tokenizer(Tokenizer::Function(tok)).document_frequency(0.0, 1.0),
-            3 => p.n_gram_range(0, 1),
-            4 => p.tokenizer(Tokenizer::Regex("(".to_string())),
+            // a user regex with upper-case classes / literals, with and without lower-casing of the documents
+            3 => p.tokenizer(Tokenizer::Regex(UPPER_RE.to_string())),
+            4 => p.tokenizer(Tokenizer::Regex(UPPER_RE.to_string())).convert_to_lowercase(false).n_gram_range(1, 2),
+            5 => p.n_gram_range(0, 1),
+            6 => p.tokenizer(Tokenizer::Regex("(".to_string())),
             _ => bad_var(cfg),
         }
     }
@@ -2296,7 +2418,7 @@ mod prep {
         o.f("offsets", a1(m.offsets()));
         o.f("scales", a1(m.scales()));
         o.f("method", dbg(m.method()));
-        o.f("transform", a2(&m.transform(q)));
+        tforms!(o, m, q);
         o
     }
     fn obs_whitener<F: Fl>(m: &FittedWhitener<F>) -> Ob {
@@ -2304,7 +2426,8 @@ mod prep {
         let mut o = Ob::new();
         o.f("matrix", a2(&m.transformation_matrix().to_owned()));
         o.f("mean", a1(&m.mean().to_owned()));
-        o.f("transform", a2(&m.transform(q)));
+        o.l("layout.matrix", m.transformation_matrix().is_standard_layout());
+        tforms!(o, m, q);
         o
     }
     pub fn t(ev: &mut Vec<Value>, cfg: &Cfg) -> bool {
@@ -2360,7 +2483,9 @@ mod prep {
                             o.d("debug", dbg(v));
                             o.d("tree", tree(v));
                             o.d("validate", Dg::new().s("valid"));
-                            o.f("refit", a2(&v.transform(queries::<$F>(3))));
+                            let mut r = Ob::new();
+                            tforms!(r, v, queries::<$F>(3));
+                            o.f("refit", r.fold());
                             o
                         }, eq)
                     }};
@@ -2390,7 +2515,7 @@ mod prep {
                                 o.f("debug", dbg(p));
                                 o.f("tree", tree(p));
                                 o.d("validate", Dg::new().s("valid"));
-                                o.f("refit", err_or(p.fit(&ds), |m| obs_scaler(&m).fold()));
+                                o.f("refit", fit_or(|| p.fit(&ds), |m| obs_scaler(&m).fold()));
                                 o
                             }, eq)
                         }
@@ -2482,7 +2607,9 @@ mod prep {
                     0 => p,
                     1 => p.tokenizer(Tokenizer::Regex(r"\b[a-z]+\b".to_string())).n_gram_range(1, 2).convert_to_lowercase(false).normalize(false).stopwords(&["and", "the"]).max_features(Some(6)),
                     2 => p.tokenizer(Tokenizer::Function(tok)),
-                    3 => {
+                    3 => p.tokenizer(Tokenizer::Regex(UPPER_RE.to_string())),
+                    4 => p.tokenizer(Tokenizer::Regex(UPPER_RE.to_string())).convert_to_lowercase(false).n_gram_range(1, 2),
+                    5 => {
                         if cfg.ty != "TfIdfVectorizer" {
                             bad_var(cfg)
                         }
@@ -2528,6 +2655,17 @@ mod prep {
     }
 }
 
+/// runs the case; the events are published even if a later step panics
+fn dispatch_into(out: &std::cell::RefCell<Vec<Value>>, _scratch: &mut Vec<Value>, cfg: &Cfg) {
+    struct Publish<'a>(&'a std::cell::RefCell<Vec<Value>>, Vec<Value>);
+    impl<'a> Drop for Publish<'a> {
+        fn drop(&mut self) {
+            self.0.borrow_mut().append(&mut self.1);
+        }
+    }
+    let mut p = Publish(out, Vec::new());
+    dispatch(&mut p.1, cfg);
+}
 fn dispatch(ev: &mut Vec<Value>, cfg: &Cfg) {
     let known = t_root(ev, cfg) || t_nn(ev, cfg) || clu::t(ev, cfg) || lin::t(ev, cfg) || enet::t(ev, cfg) || logi::t(ev, cfg) || svm::t(ev, cfg) || trees::t(ev, cfg) || bayes::t(ev, cfg) || ftrl::t(ev, cfg) || red::t(ev, cfg) || prep::t(ev, cfg);
     if !known {
@@ -2543,6 +2681,7 @@ fn main() {
             ft: gets(inp, "ft").to_string(),
             var: geti(inp, "var") as usize,
             data: geti(inp, "data") as u64,
+            wide: inp.get("wide").and_then(|w| w.as_i64()).unwrap_or(0) == 1,
             fmts: geta(inp, "fmts").iter().map(|x| x.as_str().unwrap().to_string()).collect(),
         };
         // A case needs a value to start from.  When the estimator itself fails on the seeded data (e.g. a power
@@ -2551,15 +2690,21 @@ fn main() {
         let mut cfg = cfg;
         for attempt in 0..6 {
             QSEED.with(|q| q.set(cfg.data));
+            WIDE.with(|w| w.set(if cfg.wide { 8 + ((cfg.data + cfg.var as u64) % 5) as usize } else { 0 }));
+            let ev = std::cell::RefCell::new(Vec::new());
             let r = guarded(|| {
-                let mut ev = Vec::new();
-                dispatch(&mut ev, &cfg);
-                ev
+                let mut e = Vec::new();
+                dispatch_into(&ev, &mut e, &cfg);
             });
+            let mut ev = ev.into_inner();
             match r {
-                Ok(ev) => return ev,
-                Err(msg) if msg.starts_with("harness: setup: ") && attempt < 5 => cfg.data += 7919,
-                Err(msg) => return vec![panic_event("case", &msg)],
+                Ok(()) => return ev,
+                // nothing was created yet: the estimator failed (or panicked) while fitting the seeded data
+                Err(_) if ev.is_empty() && attempt < 5 => cfg.data += 7919,
+                Err(msg) => {
+                    ev.push(panic_event("case", &msg));
+                    return ev;
+                }
             }
         }
         unreachable!()
